@@ -45,6 +45,7 @@ class Engine:
         self.fresh = 0
         self.fs = None
         self.stdout = None
+        self.sched = None
         self.h = {}
 
     def _check(self, *extra):
